@@ -264,7 +264,10 @@ def gen_fromto_case(g, kind, op):
 def gen_cseq_case(g):
     n = g.pick([0, 1, 2, 100, 2**31 - 1, g.rint(0, 2**31 - 1)])
     m = g.pick(["INVITE", "ACK", "BYE", "SUBSCRIBE", "NOTIFY", g.word(TOKEN.replace("%", ""), 1, 8)])
-    s = "%d %s" % (n, m)
+    # any 1*DIGIT LWS Method: leading zeros and wider white space are legal and must come back unchanged
+    digits = g.pick(["%d", "%d", "%d", "%03d", "%010d", "00%d"]) % n
+    s = digits + g.pick([" ", " ", " ", "  ", "\t", " \t "]) + m
+    g.count("cseq_canonical" if s == "%d %s" % (n, m) else "cseq_noncanonical")
     return "codec cseq %s # spec=C14 eq ok %s %d %s" % (hx(s), hx(s), n, hx(m)), "dom"
 
 ODD = ["", "sip:", "sips:", "sip:@", "sip:a@", "sip:a@b:", "sip:a@b:x", "sip:a@b:-5", "sip:a@b;", "sip:a@b;;x", "sip:a@b;x=", "sip:a@b?x", "sip:a@b?x=1&y",
